@@ -350,7 +350,12 @@ pub fn storm_spec(rng: &mut Rng, ctr: &mut u64) -> ReqSpec {
                 // one protocol's field inside the other protocol's request: a classic request that
                 // names IETF versions or a server, an IETF request with response-only tags
                 8 | 9 => {
-                    let (tag, value): (u32, Vec<u8>) = match rng.below(5) {
+                    let (tag, value): (u32, Vec<u8>) = match rng.below(8) {
+                        // tags whose value is a nested message in a response, here with a value
+                        // that is none (a server has no reason to look inside)
+                        5 => (r::CERT, vec![0xff; 4]),
+                        6 => (r::DELE, vec![0xff, 0xff, 0xff, 0x7f, 0, 0, 0, 0]),
+                        7 => (r::SREP, (0..12u8).map(|i| i.wrapping_mul(37) | 0x80).collect()),
                         0 | 1 => (r::VER, r::VER_DRAFT13.to_le_bytes().to_vec()),
                         2 => (r::VER, [7u32.to_le_bytes(), r::VER_DRAFT13.to_le_bytes()].concat()),
                         3 => (r::SRV, vec![0x5a; 32]),
